@@ -220,13 +220,13 @@ type Driver struct {
 	NextSet TMSet // set of block Height+2
 	PrevSet TMSet // set of block Height (its votes are reported in BeginBlock(Height+1))
 	// pending (uncommitted) txs of the current block
-	pending   [][]byte
-	Results   []BlockResult
-	InitVals  []abci.ValidatorUpdate
-	RuleErrs  []string // Tendermint update-rule violations seen so far
-	entropy   int64
-	Dead      bool // a Begin/End/Commit panicked: the node would have halted
-	NumKeys   int
+	pending  [][]byte
+	Results  []BlockResult
+	InitVals []abci.ValidatorUpdate
+	RuleErrs []string // Tendermint update-rule violations seen so far
+	entropy  int64
+	Dead     bool // a Begin/End/Commit panicked: the node would have halted
+	NumKeys  int
 }
 
 // NewDriver creates an app over a fresh MemDB and runs InitChain.
